@@ -421,7 +421,11 @@ def forms_rule(chk: Check, ctx: Any, rule: str) -> None:
     d = repo.cls("explorerscript.ssb_converting.ssb_decompiler.ExplorerScriptSsbDecompiler")
     wj = Func(d.mod, d, d.methods["write_label_jump"])
     lw = repo.func(f"{WH}.label:LabelWriteHandler._write_label")
-    jt = {"".join(p if isinstance(p, str) else "{}" for p in (template_of(c.args[0]) or [])) for c in walk_no_nested(wj.node)
+    # the statements written by write_label_jump itself and by the methods of the class it hands the writing to
+    wj_nodes = [wj.node] + [d.methods[c.func.attr] for c in walk_no_nested(wj.node)
+                            if isinstance(c, ast.Call) and isinstance(c.func, ast.Attribute) and isinstance(c.func.value, ast.Name) and c.func.value.id == "self"
+                            and c.func.attr in d.methods and c.func.attr not in ("write_stmnt", "write_line")]
+    jt = {"".join(p if isinstance(p, str) else "{}" for p in (template_of(c.args[0]) or [])) for wn in wj_nodes for c in walk_no_nested(wn)
           if isinstance(c, ast.Call) and isinstance(c.func, ast.Attribute) and c.func.attr == "write_stmnt"}
     lt = {"".join(p if isinstance(p, str) else "{}" for p in (template_of(c.args[0]) or [])) for c in walk_no_nested(lw.node)
           if isinstance(c, ast.Call) and isinstance(c.func, ast.Attribute) and c.func.attr == "write_stmnt"}
